@@ -132,6 +132,11 @@ func (e *effectEngine) fresh1(v ssa.Value) bool {
 				}
 				return all && n > 0
 			}
+			// load from the cell of a captured variable: fresh if, in the enclosing function,
+			// every store to that cell stores a fresh value (fw := &T{…}; f := func() { fw.x = … })
+			if fv, ok := v.X.(*ssa.FreeVar); ok {
+				return e.freeVarCellFresh(fv)
+			}
 			// load of a field stored earlier in the same block with a fresh value
 			if fa, ok := v.X.(*ssa.FieldAddr); ok && v.Block() != nil {
 				for _, in := range v.Block().Instrs {
@@ -156,6 +161,55 @@ func (e *effectEngine) fresh1(v ssa.Value) bool {
 		return e.paramFresh(v)
 	}
 	return false
+}
+
+// freeVarCellFresh: the variable captured as fv only ever holds fresh values.
+func (e *effectEngine) freeVarCellFresh(fv *ssa.FreeVar) bool {
+	fn := fv.Parent()
+	if fn == nil || fn.Parent() == nil {
+		return false
+	}
+	idx := -1
+	for i, q := range fn.FreeVars {
+		if q == fv {
+			idx = i
+		}
+	}
+	if idx < 0 {
+		return false
+	}
+	found := false
+	for _, b := range fn.Parent().Blocks {
+		for _, in := range b.Instrs {
+			mc, ok := in.(*ssa.MakeClosure)
+			if !ok || mc.Fn != ssa.Value(fn) || idx >= len(mc.Bindings) {
+				continue
+			}
+			found = true
+			switch cell := mc.Bindings[idx].(type) {
+			case *ssa.Alloc:
+				n := 0
+				for _, ref := range *cell.Referrers() {
+					if st, ok := ref.(*ssa.Store); ok && st.Addr == ssa.Value(cell) {
+						n++
+						if !e.fresh(st.Val) {
+							return false
+						}
+					}
+				}
+				if n == 0 {
+					return false
+				}
+			case *ssa.FreeVar:
+				if !e.freeVarCellFresh(cell) {
+					return false
+				}
+			default:
+				return false
+			}
+		}
+	}
+	return found
 }
 
 // paramFresh: a parameter denotes fresh memory when every call site of the
